@@ -171,6 +171,14 @@ def gateObs (ws : List String) : String :=
   -- `kind=fail2`: the re-created instance answers its very first readiness check with Err as well: re-created again, never called
   let fail2 := kv ws "kind" == some "fail2"
   let kind : Option Bool := match kv ws "kind" with | some "pending" => some false | some "fail" => some true | some "fail2" => some true | _ => none
+  -- `listeners=N at=K`: the gated service is the one of listener K of N: its own index, token and factory (no effect here)
+  let lstOk := match kv ws "listeners", kv ws "at" with
+    | none, none => true
+    | some n, some k => (match n.toNat?, k.toNat? with
+      | some n, some k => k < n && n ≤ 400 && (kv ws "listeners").all (·.length ≤ 9) && (kv ws "at").all (·.length ≤ 9)
+      | _, _ => false)
+    | _, _ => false
+  if !lstOk then "bad-op" else
   match kind with
   | none => "bad-op"
   | some fail =>
